@@ -303,7 +303,8 @@ func (fs *FileSink) pruneFiles() error {
 	// only <base>-<digits><ext> are this sink's rotated files.
 	var matches []string
 	for _, entry := range entries {
-		if isRotatedName(pattern, entry.Name()) {
+		// (a directory is never one of them, whatever it is called)
+		if !entry.IsDir() && isRotatedName(pattern, entry.Name()) {
 			matches = append(matches, filepath.Join(fs.Path, entry.Name()))
 		}
 	}
